@@ -175,6 +175,13 @@ func (w *World) Park(site string) {
 	<-p.ch
 }
 
+// siteArmedNow reports whether a parking site is armed at this moment.
+func (w *World) siteArmedNow(site string) bool {
+	w.mu.Lock()
+	defer w.mu.Unlock()
+	return w.siteArmed(site)
+}
+
 // QuietYield is the seam behaviour of race-detector runs: at an armed site the calling
 // goroutine yields the processor (runtime.Gosched) so that another runnable connection
 // goroutine overtakes it inside the handler. No shared state is touched: the armed list
